@@ -116,6 +116,10 @@ def simCmd2 (sess : EmitSession) (ws : List String) : Option (EmitSession × Str
       let m1 : Mem := ⟨fun i => if o ≤ i ∧ i < o + arr.size then BitVec.ofNat 8 (arr.getD (i - o) 0).toNat else m0.bytes i, m0.size⟩
       some ({ sess with gs := { sess.gs with mem := m1 } }, "ok")
     | _, _ => some (sess, "err parse")
+  | ["E", "seg", hex] =>
+    match parseBytesHex hex with
+    | some bs => some ({ sess with segs := sess.segs ++ [bs] }, "ok")
+    | none => some (sess, "err parse")
   | ["E", "mrun", depth, fidx, args] =>
     match depth.toNat?, fidx.toNat?, (if args = "-" then some [] else (args.splitOn ",").mapM parseWVal) with
     | some d, some fi, some argv =>
@@ -128,7 +132,7 @@ def simCmd2 (sess : EmitSession) (ws : List String) : Option (EmitSession × Str
           let pages := mm.size / wasmPage
           if pages + dl ≤ sess.memMax ∧ pages + dl ≤ 65535 then (⟨mm.bytes, (pages + dl) * wasmPage⟩, BitVec.ofNat 32 pages)
           else (mm, 0xFFFFFFFF#32)
-        let ns := withConcMem driverNumSem growFn
+        let ns := withConcMem driverNumSem growFn sess.segs
         let r := m.run ns cfs d
         let g0 : GS := if sess.gs.globals.isEmpty then { sess.gs with globals := sess.ctx.globalTypes.map zeroV } else sess.gs
         let rs := r.1 fi argv g0
